@@ -11,7 +11,8 @@ IMPLICIT = 'C05'
 
 
 class GenMap:
-    def __init__(self, text, inserted, unit_default_tags, unit_name):
+    def __init__(self, text, inserted, unit_default_tags, unit_name, tag_rules=()):
+        self.tag_rules = [(re.compile(rx), tags) for rx, tags in tag_rules]
         self.text = text
         self.lines = text.split('\n')
         self.unit = unit_name
@@ -56,6 +57,10 @@ class GenMap:
             return self.default
         for ln, tags in self.fnmarks.items():
             if leaf[0] <= ln <= leaf[1]:
+                return tags
+        name = self.fn_name(leaf)
+        for rx, tags in self.tag_rules:
+            if rx.search(name):
                 return tags
         return self.default
 
